@@ -92,3 +92,33 @@ Qed.
 Lemma firstn_skipn_lengths {A} (l : list A) n : (n <= length l)%nat ->
   length (firstn n l) = n /\ length (skipn n l) = (length l - n)%nat.
 Proof. intros. rewrite firstn_length, skipn_length. lia. Qed.
+
+(* ternary maps *)
+Fixpoint map3 {A B C D} (f : A -> B -> C -> D) (l1 : list A) (l2 : list B) (l3 : list C) : list D :=
+  match l1, l2, l3 with
+  | a :: r1, b :: r2, c :: r3 => f a b c :: map3 f r1 r2 r3
+  | _, _, _ => []
+  end.
+Require Import F204.Impl.Helpers.
+Lemma map3M_pure {A B C D} (f : A -> B -> C -> res D) (g : A -> B -> C -> D)
+  (P : A -> Prop) (Q : B -> Prop) (R : C -> Prop) l1 l2 l3 :
+  (forall a b c, P a -> Q b -> R c -> f a b c = Ok (g a b c)) ->
+  Forall P l1 -> Forall Q l2 -> Forall R l3 -> map3M f l1 l2 l3 = Ok (map3 g l1 l2 l3).
+Proof.
+  intros Hf H1. revert l2 l3. induction H1 as [|a l1 Ha H1 IH]; intros l2 l3 H2 H3; cbn; [reflexivity|].
+  destruct l2 as [|b l2]; [reflexivity|]. destruct l3 as [|c l3]; [reflexivity|].
+  inversion H2; inversion H3; subst.
+  rewrite (Hf a b c) by assumption. cbn [bind]. rewrite IH by assumption. reflexivity.
+Qed.
+Lemma map3_Forall {A B C D} (f : A -> B -> C -> D) (P : A -> Prop) (Q : B -> Prop) (R : C -> Prop) (S : D -> Prop) l1 l2 l3 :
+  (forall a b c, P a -> Q b -> R c -> S (f a b c)) -> Forall P l1 -> Forall Q l2 -> Forall R l3 -> Forall S (map3 f l1 l2 l3).
+Proof.
+  intros Hf H1. revert l2 l3. induction H1 as [|a l1 Ha H1 IH]; intros l2 l3 H2 H3; cbn; [constructor|].
+  destruct l2 as [|b l2]; [constructor|]. destruct l3 as [|c l3]; [constructor|].
+  inversion H2; inversion H3; subst. constructor; auto.
+Qed.
+Lemma map3_length {A B C D} (f : A -> B -> C -> D) l1 l2 l3 :
+  length l1 = length l2 -> length l1 = length l3 -> length (map3 f l1 l2 l3) = length l1.
+Proof.
+  revert l2 l3. induction l1 as [|a l1 IH]; intros [|b l2] [|c l3] H2 H3; cbn in *; try discriminate; auto.
+Qed.
